@@ -26,6 +26,7 @@ import (
 	"net/http"
 	"net/http/httputil"
 	"slices"
+	"strings"
 	"time"
 
 	"github.com/pquerna/cachecontrol"
@@ -71,20 +72,43 @@ func (rt *RoundTripper) cachedResponse(req *http.Request) (*http.Response, error
 }
 
 func (rt *RoundTripper) cacheResponse(req *http.Request, resp *http.Response) {
-	reasons, expires, err := cachecontrol.CachableResponse(req, resp, cachecontrol.Options{PrivateCache: true})
+	evaluated := resp
+
+	// the directives may be spread over multiple Cache-Control header lines
+	// (e.g. added by a proxy), but only the first line is evaluated otherwise
+	if values := resp.Header.Values("Cache-Control"); len(values) > 1 {
+		merged := *resp
+		merged.Header = resp.Header.Clone()
+		merged.Header.Set("Cache-Control", strings.Join(values, ", "))
+		evaluated = &merged
+	}
+
+	reasons, expires, err := cachecontrol.CachableResponse(req, evaluated, cachecontrol.Options{PrivateCache: true})
 	if err != nil || len(reasons) != 0 {
 		return
 	}
 
-	if expires.IsZero() {
-		// an invalid Expires header, especially the value "0", stands for a time
-		// in the past, that is an already expired response (RFC 7234, section 5.3)
-		if value := resp.Header.Get("Expires"); len(value) != 0 {
-			if _, err = http.ParseTime(value); err != nil {
-				return
-			}
+	// an invalid Expires header, especially the value "0", stands for a time in the past, that
+	// is an already expired response (RFC 7234, section 5.3), unless overridden by max-age
+	if value := resp.Header.Get("Expires"); len(value) != 0 && !hasMaxAge(evaluated) {
+		if _, err = http.ParseTime(value); err != nil {
+			return
 		}
+	}
 
+	if !hasExplicitFreshnessInfo(evaluated) {
+		// no heuristic freshness (e.g. based on the Last-Modified header) is
+		// calculated. Such responses are subject to the default ttl only
+		expires = time.Time{}
+	} else if date, err := http.ParseTime(resp.Header.Get("Date")); err == nil && !expires.IsZero() {
+		// the response may have been created a while ago (e.g. if served by a cache in front
+		// of the endpoint). Its age counts against the freshness lifetime (RFC 7234, section 4.2.3)
+		if age := time.Since(date); age > 0 {
+			expires = expires.Add(-age)
+		}
+	}
+
+	if expires.IsZero() {
 		if rt.DefaultCacheTTL == 0 {
 			return
 		}
@@ -107,6 +131,20 @@ func (rt *RoundTripper) cacheResponse(req *http.Request, resp *http.Response) {
 	ctx := req.Context()
 	cch := cache.Ctx(ctx)
 	cch.Set(ctx, cacheKey(req), respDump, ttl) //nolint:errcheck
+}
+
+func hasExplicitFreshnessInfo(resp *http.Response) bool {
+	return len(resp.Header.Get("Expires")) != 0 || hasMaxAge(resp)
+}
+
+func hasMaxAge(resp *http.Response) bool {
+	for _, directive := range strings.Split(resp.Header.Get("Cache-Control"), ",") {
+		if strings.HasPrefix(strings.ToLower(strings.TrimSpace(directive)), "max-age") {
+			return true
+		}
+	}
+
+	return false
 }
 
 func cacheKey(req *http.Request) string {
